@@ -3,6 +3,7 @@ package props
 import (
 	"bytes"
 	"fmt"
+	"path/filepath"
 	"regexp"
 	"runtime"
 	"sort"
@@ -200,7 +201,7 @@ func pageLinks(body []byte) []string {
 // dead-lock is reported as a violation of the calling property right here and
 // ok is false; a watchdog firing is inconclusive (ok false as well).
 func runCLI(c *fw.Ctx, what string, payload interface{}, env []string, cpuSeconds int, bin string, args ...string) (out string, err error, ok bool) {
-	res := fw.RunProcess(bin, args, env, cpuSeconds, 600*time.Second)
+	res := fw.RunProcessOpt(bin, args, env, cpuSeconds, 600*time.Second, filepath.Base(bin) == "strace")
 	switch res.Hang {
 	case "deadlock":
 		c.Violation(what+":deadlock@"+fw.InnermostRepoFrame(res.Dump), fmt.Sprintf("gedcom %s stopped making progress (no CPU time used at all) and the goroutine dump taken with SIGQUIT shows that no goroutine of the program can run\n%s", strings.Join(args, " "), clip(res.Dump, 2500)), payload)
